@@ -6,6 +6,14 @@
  * every call `<x>.new_symbol(<root>, <reserved>)` in malt/: the reserved argument must be `()` or a
    union of `<scope>.referenced` (directly or through one local variable assigned such a union);
    emits `callsites_gen : list (string * string * bool)` (file:line, root text, reserved-is-referenced).
+ * the `ns` of the theorems: every construction `Namer(<arg>)` in malt/ must receive the UNFILTERED result of
+   `inspect_utils.getnamespace(<parameter of the enclosing function>)` -- directly, or through one local
+   variable that is assigned exactly once, by a top-level statement of the function that precedes the
+   construction, and is otherwise only handed on as a call argument (no subscripting, no attribute access,
+   no rebinding, no comprehension over it); the namer handed to `transformer.Context(...)` must be such a
+   construction; nothing outside naming.py assigns `<x>.global_namespace`; at least one construction must
+   exist.  emits `namer_sites_gen : list (string * string * bool)` (file:line, namespace expression,
+   namespace-is-the-full-getnamespace-result).
 """
 import ast
 import os
@@ -22,6 +30,129 @@ def _union_terms(e):
     if isinstance(e, ast.BinOp) and isinstance(e.op, ast.BitOr):
         return _union_terms(e.left) + _union_terms(e.right)
     return [e]
+
+
+def _is_namer_ctor(c):
+    return isinstance(c, ast.Call) and ((isinstance(c.func, ast.Attribute) and c.func.attr == 'Namer') or
+                                        (isinstance(c.func, ast.Name) and c.func.id == 'Namer'))
+
+
+def _is_getnamespace(e, params):
+    return isinstance(e, ast.Call) and not e.keywords and len(e.args) == 1 and isinstance(e.args[0], ast.Name) \
+        and e.args[0].id in params and \
+        ((isinstance(e.func, ast.Attribute) and e.func.attr == 'getnamespace' and isinstance(e.func.value, ast.Name)
+          and e.func.value.id == 'inspect_utils') or (isinstance(e.func, ast.Name) and e.func.id == 'getnamespace'))
+
+
+def _parents(tree):
+    par = {}
+    for n in ast.walk(tree):
+        for ch in ast.iter_child_nodes(n):
+            par[ch] = n
+    return par
+
+
+def _enclosing_function(node, par):
+    while node in par:
+        node = par[node]
+        if isinstance(node, (ast.FunctionDef, ast.AsyncFunctionDef, ast.Lambda)):
+            return node
+    return None
+
+
+def _toplevel_index(node, func, par):
+    """index of the statement of func.body that contains node, None when it sits in a nested function"""
+    while node in par and par[node] is not func:
+        node = par[node]
+        if isinstance(node, (ast.FunctionDef, ast.AsyncFunctionDef, ast.Lambda, ast.ClassDef)):
+            return None
+    return func.body.index(node) if node in func.body else None
+
+
+def namer_sites(repo):
+    """Every construction of a Namer in malt/ with the proof that it receives the full namespace (fail closed)."""
+    sites = []
+    for d, _, fs in os.walk(os.path.join(repo, 'malt')):
+        for fn in sorted(fs):
+            if not fn.endswith('.py'):
+                continue
+            p = os.path.join(d, fn)
+            rel = os.path.relpath(p, repo)
+            t = ast.parse(open(p).read())
+            par = _parents(t)
+            full_namers = {}     # (function node, variable name) -> True for `v = Namer(<full namespace>)`
+            for c in ast.walk(t):
+                if isinstance(c, ast.Attribute) and c.attr == 'global_namespace' and not isinstance(c.ctx, ast.Load) \
+                        and rel != os.path.join('malt', 'pyct', 'naming.py'):
+                    raise Untranslatable('untranslatable: %s:%d: the namespace of a Namer is replaced after construction' % (rel, c.lineno))
+                if not _is_namer_ctor(c):
+                    continue
+                where = '%s:%d' % (rel, c.lineno)
+                args = list(c.args) + [k.value for k in c.keywords if k.arg == 'global_namespace']
+                if len(args) != 1 or len(c.args) + len(c.keywords) != 1:
+                    raise Untranslatable('untranslatable: %s: Namer constructed with arguments (%s)' % (where, ast.unparse(c)))
+                func = _enclosing_function(c, par)
+                if not isinstance(func, ast.FunctionDef):
+                    raise Untranslatable('untranslatable: %s: Namer constructed outside a plain function' % where)
+                params = [a.arg for a in func.args.posonlyargs + func.args.args + func.args.kwonlyargs]
+                a = args[0]
+                if _is_getnamespace(a, params):
+                    expr = ast.unparse(a)
+                elif isinstance(a, ast.Name):
+                    at = _toplevel_index(c, func, par)
+                    binds = []
+                    for n in ast.walk(func):
+                        if isinstance(n, ast.Name) and n.id == a.id and n is not a:
+                            pn = par.get(n)
+                            if isinstance(n.ctx, ast.Store) and isinstance(pn, ast.Assign) and pn.targets == [n]:
+                                binds.append(pn)
+                            elif isinstance(n.ctx, ast.Load) and isinstance(pn, ast.Call) and n in pn.args:
+                                pass          # handed on as an argument
+                            elif isinstance(n.ctx, ast.Load) and isinstance(pn, ast.keyword) and isinstance(par.get(pn), ast.Call):
+                                pass
+                            else:
+                                raise Untranslatable('untranslatable: %s:%d: the namespace variable %s of the Namer is used as `%s`'
+                                                     % (rel, n.lineno, a.id, ast.unparse(pn) if pn is not None else a.id))
+                        elif isinstance(n, (ast.Global, ast.Nonlocal)) and a.id in n.names:
+                            raise Untranslatable('untranslatable: %s:%d: namespace variable %s declared global/nonlocal' % (rel, n.lineno, a.id))
+                        elif isinstance(n, ast.arg) and n.arg == a.id:
+                            raise Untranslatable('untranslatable: %s:%d: the Namer is constructed from the parameter %s, not from '
+                                                 'inspect_utils.getnamespace(fn)' % (rel, c.lineno, a.id))
+                    if len(binds) != 1:
+                        raise Untranslatable('untranslatable: %s: the namespace variable %s of the Namer is assigned %d times' % (where, a.id, len(binds)))
+                    b = binds[0]
+                    if not _is_getnamespace(b.value, params):
+                        raise Untranslatable('untranslatable: %s:%d: the Namer is constructed from %s = %s, not from the unfiltered '
+                                             'inspect_utils.getnamespace(fn)' % (rel, b.lineno, a.id, ast.unparse(b.value)))
+                    if at is None or b not in func.body or func.body.index(b) >= at:
+                        raise Untranslatable('untranslatable: %s: %s is not assigned by a top-level statement that precedes the Namer construction' % (where, a.id))
+                    expr = '%s = %s' % (a.id, ast.unparse(b.value))
+                else:
+                    raise Untranslatable('untranslatable: %s: the Namer is constructed from %s, not from the unfiltered '
+                                         'inspect_utils.getnamespace(fn)' % (where, ast.unparse(a)))
+                sites.append((where, expr, True))
+                pc = par.get(c)
+                if isinstance(pc, ast.Assign) and len(pc.targets) == 1 and isinstance(pc.targets[0], ast.Name):
+                    nb = [n for n in ast.walk(func) if isinstance(n, ast.Name) and n.id == pc.targets[0].id and isinstance(n.ctx, ast.Store)]
+                    if len(nb) == 1:
+                        full_namers[(func, pc.targets[0].id)] = True
+            # the namer the converters see (ctx.namer) is one of these constructions
+            for c in ast.walk(t):
+                if isinstance(c, ast.Call) and ((isinstance(c.func, ast.Attribute) and c.func.attr == 'Context' and
+                                                 isinstance(c.func.value, ast.Name) and c.func.value.id == 'transformer') or
+                                                (isinstance(c.func, ast.Name) and c.func.id == 'Context')):
+                    nm = c.args[1] if len(c.args) > 1 else None
+                    for k in c.keywords:
+                        if k.arg == 'namer':
+                            nm = k.value
+                    func = _enclosing_function(c, par)
+                    if not (isinstance(nm, ast.Name) and (func, nm.id) in full_namers) and not \
+                            (_is_namer_ctor(nm) and any(w == '%s:%d' % (rel, nm.lineno) for w, _, _ in sites)):
+                        raise Untranslatable('untranslatable: %s:%d: the namer of transformer.Context(...) is not a Namer constructed from '
+                                             'the full namespace in the same function' % (rel, c.lineno))
+    if not sites:
+        raise Untranslatable('untranslatable: malt/: no construction of naming.Namer found')
+    return sorted(set(sites))
 
 
 def translate(repo):
@@ -124,12 +255,15 @@ def translate(repo):
                             kind = True
                         sites.append(('%s:%d' % (os.path.relpath(p, repo), c.lineno), ast.unparse(c.args[0]), kind))
     sites = sorted(set(sites))
+    nsites = namer_sites(repo)
     out = ['(* GENERATED on every run by tools/translate/c11_names.py -- do not edit *)',
            'From Coq Require Import List String.', 'Import ListNotations.', 'Require Import MV.Names.Namer.',
            'Local Open Scope string_scope.',
            'Definition referenced_gen : list sfield := [%s].' % '; '.join(sorted(fields)),
            'Definition callsites_gen : list (string * string * bool) := [',
-           ';\n'.join('  ("%s", "%s", %s)' % (a, b.replace('"', "'"), 'true' if k else 'false') for a, b, k in sites), '].']
+           ';\n'.join('  ("%s", "%s", %s)' % (a, b.replace('"', "'"), 'true' if k else 'false') for a, b, k in sites), '].',
+           'Definition namer_sites_gen : list (string * string * bool) := [',
+           ';\n'.join('  ("%s", "%s", %s)' % (a, b.replace('"', "'"), 'true' if k else 'false') for a, b, k in nsites), '].']
     return '\n'.join(out) + '\n'
 
 
